@@ -6,11 +6,15 @@ package converters
 
 //@ func ConfigHeaderToDBHeader
 //@   fresh result
+//@   property C04
+//@   ensures [positions-copied] result.Record == confighdr.Record && result.Lastknownrecord == confighdr.Lastknownrecord && result.Block == confighdr.Block && result.Lastknownblock == confighdr.Lastknownblock
 //@   property C01 also C02 C03 C04 C06 C07 C12 C13 C16 C17
 //@   ensures [fields] result != nil && result.Record == confighdr.Record && result.Lastknownrecord == confighdr.Lastknownrecord && result.Block == confighdr.Block && result.Lastknownblock == confighdr.Lastknownblock && result.Deleted == confighdr.Deleted && result.Typeflag == confighdr.Typeflag && result.Name == confighdr.Name && result.Linkname == confighdr.Linkname && result.Size == confighdr.Size && result.Mode == confighdr.Mode && result.UID == confighdr.UID && result.Gid == confighdr.Gid && result.Uname == confighdr.Uname && result.Gname == confighdr.Gname && result.Modtime == confighdr.Modtime && result.Accesstime == confighdr.Accesstime && result.Changetime == confighdr.Changetime && result.Devmajor == confighdr.Devmajor && result.Devminor == confighdr.Devminor && result.Paxrecords == confighdr.Paxrecords && result.Format == confighdr.Format
 
 //@ func DBHeaderToConfigHeader
 //@   fresh result
+//@   property C04
+//@   ensures [positions-copied] result.Record == dbhdr.Record && result.Lastknownrecord == dbhdr.Lastknownrecord && result.Block == dbhdr.Block && result.Lastknownblock == dbhdr.Lastknownblock
 //@   property C01 also C02 C03 C04 C06 C07 C12 C13 C16 C17
 //@   ensures [fields] result != nil && result.Record == dbhdr.Record && result.Lastknownrecord == dbhdr.Lastknownrecord && result.Block == dbhdr.Block && result.Lastknownblock == dbhdr.Lastknownblock && result.Deleted == dbhdr.Deleted && result.Typeflag == dbhdr.Typeflag && result.Name == dbhdr.Name && result.Linkname == dbhdr.Linkname && result.Size == dbhdr.Size && result.Mode == dbhdr.Mode && result.UID == dbhdr.UID && result.Gid == dbhdr.Gid && result.Uname == dbhdr.Uname && result.Gname == dbhdr.Gname && result.Modtime == dbhdr.Modtime && result.Accesstime == dbhdr.Accesstime && result.Changetime == dbhdr.Changetime && result.Devmajor == dbhdr.Devmajor && result.Devminor == dbhdr.Devminor && result.Paxrecords == dbhdr.Paxrecords && result.Format == dbhdr.Format
 
